@@ -120,7 +120,27 @@ def run(ctx):
             res.violation("TABLE", FN, f"kind={kind},joins={joins},sensitive={ds},unknown={uh},filter={filt}" + (",vertices-compare-equal" if vcls != "Vertex" else ""),
                           f"find_links() gives {got!r} for a {kind}-kind link where the statement requires {exp!r}" + (" (a, b and the third vertex are distinct objects of a class with value equality)" if vcls != "Vertex" else ""),
                           detail=f"link class {cls}, a is {pos}; filter calls {cb.calls if cb else None}", replay=replay(cls, pos, joins, ds, uh, filt))
-    res.rule("TABLE", len(rows_))
+    # ---- a one-argument filter written as a lambda with a defaulted second parameter: it is still asked about the link alone
+    ndp = 0
+    for cls, pos, ds, uh, answer in itertools.product(("DirectedEdge", "UnDirectedEdge", "SymTwo"), ("v1", "v2"), (True, False), UHS[:2], (True, False)):
+        exp = expected(KINDS[cls], pos, True, ds, uh, "accept" if answer else "reject")
+        try:
+            h.reset()
+            a, b, l = build(h, cls, pos, True)
+            flt = h.I.call(h.sym["make_default_param_filter"], [answer], {})
+            got = classify(h.call(fn, a, b, ds, C[uh], flt), l)
+        except Unknown as u:
+            res.ob(False)
+            res.undecide(f"{FN} row {cls},{pos},{ds},{uh},lambda-with-defaulted-parameter: {u}")
+            continue
+        ndp += 1
+        ok = got in exp if isinstance(exp, set) else got == exp
+        res.ob(ok, sig=("defaulted-parameter", cls, pos, ds, uh, answer))
+        if not ok:
+            res.violation("TABLE", FN, f"kind={KINDS[cls]},joins=True,sensitive={ds},unknown={uh},filter={'accept' if answer else 'reject'},filter-is-a-lambda-with-a-defaulted-second-parameter",
+                          f"find_links() gives {got!r} for a {KINDS[cls]}-kind link where the statement requires {exp!r}; the filter is `lambda e, _answer={answer}: _answer`",
+                          replay=replay(cls, pos, True, ds, uh, "accept" if answer else "reject").replace("filterfunc", "filterfunc  # use: lambda e, _answer=%s: _answer" % answer))
+    res.rule("TABLE", len(rows_) + ndp)
     # ---- relational check against the derived neighbors() table
     nrel = 0
     for (cls, pos, joins, ds, uh, filt), got in derived.items():
